@@ -163,28 +163,56 @@ def run(ctx):
                 and any(isinstance(b, ast.Raise) for b in n.body):
             pos['forbid'] = n.lineno
             forbid_if = n
-    okord = all(k in pos for k in ('ipv4', 'idna', 'forbid', 'ipv6')) and pos['ipv4'] < pos['idna'] < pos['forbid']
+    okord = all(k in pos for k in ('ipv4', 'idna', 'forbid', 'ipv6'))
+    why_ord = 'steps found: %s' % sorted(pos)
     if okord:
-        # the checked and returned value is the IDNA result; the IDNA input is the IPv4 result (or the raw name on failure)
-        pdefs = U.local_defs(pn.node)
-        checked = {x.id for x in ast.walk(forbid_if.test) if isinstance(x, ast.Name)} - {'FORBIDDEN_HOSTNAME_CHARS', 'char', 'any'}
-        retn = [r.value.id for r in walk_no_nested(pn.node) if isinstance(r, ast.Return) and isinstance(r.value, ast.Name)]
-        idna_targets = {t.id for n in walk_no_nested(pn.node) if isinstance(n, ast.Assign) and n.value is idna_call
-                        for t in n.targets if isinstance(t, ast.Name)}
-        okord = bool(idna_targets) and idna_targets <= checked | idna_targets and all(r in idna_targets for r in retn) \
-            and bool(retn) and bool(checked & idna_targets) \
-            and isinstance(idna_call.args[0], ast.Name) and any(
-                isinstance(v, ast.Call) and dotted(v.func) == 'normalize_ipv4_address'
-                for v, k, s in pdefs.get(idna_call.args[0].id, []) if v is not None)
+        # On every path to the returned name: IDNA mapping / lower-casing, THEN an IPv4 attempt on the mapped name, THEN the
+        # forbidden-character check.  A host that only becomes numeric through the mapping (`0X10.0.0.1`, full-width digits,
+        # ideographic full stops) is otherwise canonicalised one normalisation later.  (An additional attempt on the raw name
+        # before the mapping is fine.)
+        from .. import flow as F
+        pcfg = ctx.cfg(pn)
+        A = [n for n in pcfg.stmt_nodes() if isinstance(n.stmt, ast.Assign) and isinstance(n.stmt.value, ast.Call)
+             and dotted(n.stmt.value.func) == 'normalize_hostname' and len(n.stmt.targets) == 1 and isinstance(n.stmt.targets[0], ast.Name)]
+        names = {n.stmt.targets[0].id for n in A}
+        B = [n for n in pcfg.stmt_nodes() if any(dotted(c.func) == 'normalize_ipv4_address' and c.args and isinstance(c.args[0], ast.Name)
+                                                 and c.args[0].id in names for c in F.node_calls(n))]
+        Fk = [n for n in pcfg.nodes if n.kind == 'if' and n.stmt is forbid_if]
+        R = [n for n in pcfg.nodes if n.kind == 'return' and isinstance(n.stmt.value, ast.Name)]
+        anyedge = lambda a_, b_, k_: True
+        if not (A and len(names) == 1):
+            okord, why_ord = False, 'no single name holds the IDNA-mapped host'
+        elif not B:
+            okord, why_ord = False, 'no IPv4 attempt is made on the IDNA-mapped, lower-cased name (only on the raw one)'
+        elif not R or any(r.stmt.value.id not in names for r in R):
+            okord, why_ord = False, 'the value returned is not the mapped / canonicalised name'
+        else:
+            for r in R:
+                if pcfg.find_path(pcfg.entry, lambda m, r=r: m is r, edge_ok=anyedge, stop=lambda m: m in A) is not None:
+                    okord, why_ord = False, 'a path returns the host without IDNA mapping'
+                for a_ in A:
+                    if pcfg.find_path(a_, lambda m, r=r: m is r, edge_ok=anyedge, stop=lambda m: m in B) is not None:
+                        okord, why_ord = False, 'a path returns the mapped host without an IPv4 attempt after the mapping'
+                for b_ in B:
+                    if pcfg.find_path(b_, lambda m, r=r: m is r, edge_ok=anyedge, stop=lambda m: m in Fk) is not None:
+                        okord, why_ord = False, 'the forbidden-character check does not follow the last rewriting of the host'
+            # nothing rewrites the name after the check
+            for f_ in Fk:
+                for n in A + [x for x in pcfg.stmt_nodes() if isinstance(x.stmt, ast.Assign) and any(isinstance(t, ast.Name) and t.id in names for t in x.stmt.targets)]:
+                    if pcfg.find_path(f_, lambda m, n=n: m is n, edge_ok=anyedge, first_edges=lambda a2, b2, k2: k2 == 'F') is not None:
+                        okord, why_ord = False, 'the host is rewritten after the forbidden-character check'
     if okord:
-        # the IPv4 attempt is unconditional within the non-IPv6 branch (only the `[`-literal dispatch may guard it)
+        # every IPv4 attempt is unconditional within the non-IPv6 branch (only the `[`-literal dispatch may guard it): a filter in
+        # front of it decides by spelling which addresses get canonicalised
         pmn = U.parents(pn.node)
-        v4call = [c for c in U.calls(pn.node) if dotted(c.func) == 'normalize_ipv4_address'][0]
-        for a in U.ancestors(v4call, pmn):
-            if isinstance(a, ast.If) and not ("startswith('[')" in norm_text(a.test) or 'startswith("[")' in norm_text(a.test)):
-                okord = False
-    ck.expect(okord, 'C10-D1', pn.qual, 'IPv4 canonicalisation -> IDNA/lower -> forbidden-character check -> return',
-              'host normalisation steps are missing or out of order (%s)' % pos, pn.loc())
+        for v4 in [c for c in U.calls(pn.node) if dotted(c.func) == 'normalize_ipv4_address']:
+            for a_ in U.ancestors(v4, pmn):
+                if isinstance(a_, ast.If) and not ("startswith('[')" in norm_text(a_.test) or 'startswith("[")' in norm_text(a_.test)):
+                    okord = False
+                    why_ord = 'an IPv4 attempt is conditional on `%s`' % norm_text(a_.test)
+    ck.expect(okord, 'C10-D1', pn.qual, 'IDNA/lower -> IPv4 canonicalisation of the mapped name -> forbidden-character check -> return',
+              'host normalisation is not stable: %s (normalising `http://0X10.0.0.1/` gives `0x10.0.0.1`, normalising that gives `16.0.0.1`)' % why_ord,
+              pn.loc())
     # the refused set must contain every delimiter that would move when the reassembled URL is parsed again: IDNA (NFKC)
     # maps compatibility characters (U+FF0F, U+FF1F, U+FF03, U+2100 ...) onto them after the authority was cut out
     try:
